@@ -319,7 +319,7 @@ pub fn run(ctx: &mut Ctx) {
     // (2) lenient acceptance workload
     let gens: Vec<StrGen> = ALL_FMT.iter().map(|f| StrGen::new(*f)).collect();
     let mut rng = ctx.rng(0xC12);
-    let n = ctx.share(600_000, 10_000_000);
+    let n = ctx.share(1_500_000, 15_000_000);
     let mut i = 0u64;
     while i < n {
         if ctx.out_of_time() {
@@ -334,10 +334,10 @@ pub fn run(ctx: &mut Ctx) {
     }
     // (3) the shared hostile workload
     let mut sink = |ctx: &mut Ctx, f: Fmt, s: &str, family: &'static str| probe(ctx, f, s, family);
-    hostile_workload(ctx, 0xC12A, 800_000, 16_000_000, &mut sink);
+    hostile_workload(ctx, 0xC12A, 2_000_000, 20_000_000, &mut sink);
     // (4) fold results of hostile lexical values
     let h = HostileLex::new();
-    let m = ctx.share(1_000_000, 16_000_000);
+    let m = ctx.share(2_500_000, 25_000_000);
     let mut empty_names = 0u64;
     for i in 0..m {
         if ctx.out_of_time() {
